@@ -32,10 +32,12 @@ def dense_case(cid, Phi, Psi, w, wc, wt, ft=True):
             warnings.simplefilter("ignore")
             kn = core.mk(KernelNormalizer, with_center=wc, with_trace=wt).fit(K.copy(), sample_weight=sw)
             # transform / fit_transform may work in place when asked to (copy=False): same values, on a private copy
+            if sw is not None:
+                sw[:] = sw[::-1].copy() + 1.0          # the caller reuses its weight buffer after fit: the fitted state must not follow
             cp = {} if (len(K) + len(Kt)) % 2 == 0 else {"copy": False}
             a, b = q(kn.transform(K.copy(), **cp), SQ), q(kn.transform(Kt.copy(), **cp), SQ)
             sc = q([kn.scale_], SQ)
-            f = q(KernelNormalizer(with_center=wc, with_trace=wt).fit_transform(K.copy(), sample_weight=sw, **cp), SQ) if ft else []
+            f = q(KernelNormalizer(with_center=wc, with_trace=wt).fit_transform(K.copy(), sample_weight=None if w is None else np.asarray(w, float), **cp), SQ) if ft else []
         if a is None or b is None or sc is None or f is None:
             c["degenerate"] = True          # zero trace: division by zero in the implementation (the spec decides: TrN = 0)
             c["Ktrain"] = [[0] * len(K)] * len(K)
